@@ -17,7 +17,7 @@ BOUNDS = {"quick": {"parameters": "n: all integers and all reals (symbolic); bas
                     "non-ASCII word-character class, witnesses of length <= 8; operands: 29 constructor/operator sites x 11 foreign objects",
                     "outside": "Unicode tables behind \\\\w (one opaque class), names longer than the witnesses, foreign objects outside the list"},
           "thorough": {"parameters": "as quick"}}
-BOUNDS["thorough"] = BOUNDS["quick"]
+BOUNDS["thorough"] = dict(BOUNDS["quick"], parameters=BOUNDS["quick"]["parameters"] + "; names also with witnesses of length <= 14")
 ASSUMPTIONS = ["Python's re module implements the translated fragment (\\\\A, \\\\Z, \\\\w, *, +, ^, $, character classes) as documented; other pattern syntax makes the lemma inconclusive"]
 OPTS = {"quick": {"timeout_ms": 10000}, "thorough": {"timeout_ms": 30000}}
 
@@ -41,6 +41,8 @@ def jobs(tier, seed):
         for f in modes.FOREIGN:
             js.append({"mode": "reject", "site": site, "foreign": f})
     js.append({"mode": "names"})
+    if tier == "thorough":
+        js.append({"mode": "names", "maxlen": 14})
     js.append({"mode": "param", "what": "NthPower", "sort": "real", "twin": "accept-all"})
     js.append({"mode": "param", "what": "Logarithm", "sort": "real", "twin": "accept-all"})
     for i, j in enumerate(js):
